@@ -225,3 +225,10 @@ package verifh
 //@   modifies uint8
 //@   ensures[C01] result3 == nil && result2 == 2 && result0 == v1 && result1 == v2
 //@   canary[C01] result1 == 0
+
+//@ func MessageAbsentField
+//@   requires b != nil && t1 < t2 && t3 != t1 && t3 != t2
+//@   modifies buffer.len at b
+//@   modifies buffer.obj at b
+//@   modifies uint8
+//@   ensures[C16] result3 == nil && result0 == 0 && result1 == 0 && !result2
